@@ -83,34 +83,37 @@ fn check_seq(acc: &mut Acc, idx: usize, pts: &[IP], full: bool) {
             }
         }
     }
-    // minimum rotated rect
+    // minimum rotated rect, at three exact power-of-two scales (the clauses are scale free: nothing may depend on an absolute size)
     if nontrivial {
-        let mp = MultiPoint(cf.iter().map(|&c| Point(c)).collect::<Vec<_>>());
-        acc.evals += 1;
-        match guard(|| mp.minimum_rotated_rect()) {
-            Err(p) => acc.viol("minimum_rotated_rect panic".into(), idx, || json!({"points": format!("{:?}", pts), "panic": p})),
-            Ok(None) => acc.viol("minimum_rotated_rect None for non-degenerate input".into(), idx, || json!({"points": format!("{:?}", pts)})),
-            Ok(Some(r)) => {
-                let br = mp.bounding_rect().unwrap();
-                let ext = (br.width().max(br.height())).max(1.0);
-                let ring = &r.exterior().0;
-                let a = r.unsigned_area();
-                let sgn = if r.signed_area() >= 0.0 { 1.0 } else { -1.0 };
-                let mut worst: f64 = 0.0;
-                for c in &cf {
-                    for w in ring.windows(2) {
-                        let cr = (w[1].x - w[0].x) * (c.y - w[0].y) - (w[1].y - w[0].y) * (c.x - w[0].x);
-                        let len = ((w[1].x - w[0].x).powi(2) + (w[1].y - w[0].y).powi(2)).sqrt().max(1e-300);
-                        worst = worst.max(-sgn * cr / len);
+        for sc in [1.0f64, 1.0 / 1073741824.0, 1048576.0] {
+            let cs: Vec<Coord<f64>> = cf.iter().map(|c| Coord { x: c.x * sc, y: c.y * sc }).collect();
+            let mp = MultiPoint(cs.iter().map(|&c| Point(c)).collect::<Vec<_>>());
+            acc.evals += 1;
+            match guard(|| mp.minimum_rotated_rect()) {
+                Err(p) => acc.viol("minimum_rotated_rect panic".into(), idx, || json!({"points": format!("{:?}", pts), "scale": sc, "panic": p})),
+                Ok(None) => acc.viol("minimum_rotated_rect None for non-degenerate input".into(), idx, || json!({"points": format!("{:?}", pts), "scale": sc})),
+                Ok(Some(r)) => {
+                    let br = mp.bounding_rect().unwrap();
+                    let ext = br.width().max(br.height());
+                    let ring = &r.exterior().0;
+                    let a = r.unsigned_area();
+                    let sgn = if r.signed_area() >= 0.0 { 1.0 } else { -1.0 };
+                    let mut worst: f64 = 0.0;
+                    for c in &cs {
+                        for w in ring.windows(2) {
+                            let cr = (w[1].x - w[0].x) * (c.y - w[0].y) - (w[1].y - w[0].y) * (c.x - w[0].x);
+                            let len = ((w[1].x - w[0].x).powi(2) + (w[1].y - w[0].y).powi(2)).sqrt().max(1e-300);
+                            worst = worst.max(-sgn * cr / len);
+                        }
                     }
-                }
-                acc.maxf("mrr outside distance / extent", worst / ext);
-                acc.maxf("mrr area / bbox area", a / (br.width() * br.height()));
-                if worst > 1e-9 * ext {
-                    acc.viol("minimum_rotated_rect does not contain an input point".into(), idx, || json!({"points": format!("{:?}", pts), "rect": format!("{:?}", r), "outside_by": worst}));
-                }
-                if a > br.width() * br.height() * (1.0 + 1e-12) + 1e-12 {
-                    acc.viol("minimum_rotated_rect larger than the bounding rect".into(), idx, || json!({"points": format!("{:?}", pts), "rect": format!("{:?}", r), "area": a, "bbox_area": br.width() * br.height()}));
+                    acc.maxf("mrr outside distance / extent", worst / ext);
+                    acc.maxf("mrr area / bbox area", a / (br.width() * br.height()));
+                    if worst > 1e-9 * ext {
+                        acc.viol("minimum_rotated_rect does not contain an input point".into(), idx, || json!({"points": format!("{:?}", pts), "scale": sc, "rect": format!("{:?}", r), "outside_by": worst}));
+                    }
+                    if a > br.width() * br.height() * (1.0 + 1e-12) + 1e-12 * ext * ext {
+                        acc.viol("minimum_rotated_rect larger than the bounding rect".into(), idx, || json!({"points": format!("{:?}", pts), "scale": sc, "rect": format!("{:?}", r), "area": a, "bbox_area": br.width() * br.height()}));
+                    }
                 }
             }
         }
